@@ -28,6 +28,8 @@ for p in "$@"; do
   if echo "$out" | grep -q VIOLATION; then CHECKS="$CHECKS $p:caught"; else CHECKS="$CHECKS $p:missed"; fi
 done
 git -C /repo checkout -- .
+# the evidence files now describe runs on a mutated tree: put back the committed ones
+for p in "$@"; do git -C /verif checkout -- evidence/$p.json 2>/dev/null; done
 python3 - "$D" "$BUILD" "$SUITE" "$DEMO_WITH" "$DEMO_WITHOUT" "$CHECKS" <<'PY'
 import json,sys
 d,b,s,w,wo,ch=sys.argv[1:7]
